@@ -156,6 +156,9 @@ def arg_order(ctx, rule, callers: List[FuncInfo], receiver_pred, resolve):
     and whose name is also a parameter name of the callee must be passed at that parameter's position"""
     for f in callers:
         own = set(f.params)
+        # locals count too: `r, phi = par_evaluate(self.p); backend.squeeze(phi, r, ...)`
+        own |= {t.id for n in walk_no_nested(f.node) if isinstance(n, (ast.Assign,)) for tt in n.targets
+                for t in ast.walk(tt) if isinstance(t, ast.Name)}
         for n in walk_no_nested(f.node):
             if not (isinstance(n, ast.Call) and receiver_pred(n)):
                 continue
